@@ -71,6 +71,9 @@ def gen_case(rng, max_n=8, p_fail=0.08, p_flag=0.2, mode_mix=True):
             dbg -= set(case["target"])
         case["debug"] = sorted(dbg)
         case["run_debug"] = drng.random() < 0.7
+        if case["mode"] == "call" and dbg and drng.random() < 0.4:
+            # the same instance called twice, RUN_DEBUG_NODES switched in between
+            case["mode"] = "call_toggle"
     return case
 
 
@@ -228,6 +231,8 @@ def build(case):
     names = lambda l: None if l is None else [node_name(i) for i in l]  # noqa: E731
     if mode == "call":
         return d, [lambda: d()]
+    if mode == "call_toggle":
+        return d, [lambda: d(), lambda: d()]
     if mode == "setup_then_call":
         return d, [lambda: d.setup(), lambda: d()]
     if mode == "exec":
@@ -236,7 +241,7 @@ def build(case):
     raise ValueError(mode)
 
 
-def declared_cfg(case, cfg):
+def declared_cfg(case, cfg, dag_cp=None, run_debug=None):
     """the configuration the user declared (decorator arguments, then reconfiguration), which is what the
     properties speak about: sequential flags, resources and max_concurrency come from the case, not from what
     the scheduler was handed.  -> (cfg, list of (property, message) for each difference)"""
@@ -258,6 +263,22 @@ def declared_cfg(case, cfg):
             diffs.append((("C04",), "node %s is declared with resource %s, the scheduler was handed %s" % (nme, a["resource"], res[nme])))
             res[nme] = a["resource"]
     out["seq"], out["res"] = seq, res
+    # the compound priorities the scheduler picks by are those of the DAG (K-graph ties that table to Priority.v)
+    if dag_cp is not None:
+        cp = dict(cfg["cp"])
+        for nme in cfg["nodes"]:
+            if nme in dag_cp and cp.get(nme) != dag_cp[nme]:
+                diffs.append((("C06", "C07"), "node %s has compound priority %r in the DAG, the scheduler was handed %r" % (nme, dag_cp[nme], cp.get(nme))))
+                cp[nme] = dag_cp[nme]
+        out["cp"] = cp
+    # a plain call runs every node, debug nodes exactly when RUN_DEBUG_NODES is on at the time of the call
+    if run_debug is not None and case.get("mode", "call") in ("call", "call_toggle") and not case.get("setup"):
+        dbg = set(case.get("debug") or [])
+        expect = {node_name(i) for i in range(case["n"]) if run_debug or i not in dbg}
+        got = {x for x in cfg["nodes"] if x.startswith("n") and x[1:].isdigit()}
+        if got != expect:
+            props = ("C13", "C03") + (("C17",) if case.get("is_async") else ())
+            diffs.append((props, "with RUN_DEBUG_NODES %s a call runs the nodes %s, the scheduler was handed %s" % ("on" if run_debug else "off", sorted(expect), sorted(got))))
     return out, diffs
 
 
